@@ -294,3 +294,19 @@ def e4(ctx):
     obs.append(ctx.ob(ok, gr.qualname, gr.where, "object store indexed by the requested etag", "object_store[etag]; current etag only when none was given",
                       "GitStore._get_raw does not look the blob up by the etag it was asked for"))
     return obs
+
+
+@rule("C02", "E5", floor=5, kind="N",
+      desc="body and ETag come from the same place: the tree store's read API never serves the working-tree file (same "
+           "obligations as C04/B2)")
+def e5(ctx):
+    from .c04 import b2
+    return b2(ctx)
+
+
+@rule("C02", "E6", floor=4, kind="N",
+      desc="the sync view enumerates the same tree the other views read: the collection tag is computed from the "
+           "structure the listing comes from (same obligations as C08/G2)")
+def e6(ctx):
+    from .c08 import g2
+    return g2(ctx)
